@@ -28,7 +28,10 @@ func init() {
 
 // RunCase executes one case in this process.
 func RunCase(c Case) (res *Result) {
-	run, err := NewRunner()
+	run, err := NewRunnerFor(c.Params)
+	for try := 0; err != nil && c.Params.E2E != nil && try < 2; try++ {
+		run, err = NewRunnerFor(c.Params)
+	}
 	if err != nil {
 		return &Result{Hung: "rig: " + err.Error(), HungAt: 0, Stats: map[string]int{"rig-error": 1}}
 	}
@@ -44,6 +47,8 @@ func RunCase(c Case) (res *Result) {
 			}
 		}
 		run.res.Final = c.Final && done
+	} else if c.Params.Conc > 0 {
+		generateConc(c.Seed, c.Params, run)
 	} else {
 		generate(c.Seed, c.Params, run)
 	}
